@@ -4,6 +4,8 @@
 // and anisotropic distance, and eigenvalues computed in the harness (Eigen: the implementation under
 // test is the covariance, not the eigen-solver).  DESIGN.md §5 C03.
 #include "verif.hpp"
+#include "Geometry/Rotation.hpp"
+#include <sstream>
 
 #include "Model/Model.hpp"
 #include "Covariances/CovAniso.hpp"
@@ -281,7 +283,7 @@ static StructCase genStruct(int ndim, int nvar, int forcedType = -1)
   if (s.A[0] == 0) s.A[0] = 1;
   s.rank = G::i(1, nvar);
   s.eps = G::pct(50) ? 0. : G::pick({0.1, 1.});
-  s.how = G::i(0, 2);
+  s.how = G::pick<int>({0, 0, 1, 2, 3, 4, 5}); // 3: ranges then Rotation object, 4: ranges then rotation matrix, 5: as 0 then the whole Model goes through a neutral-file round trip
   return s;
 }
 static ModelCase genModel(int maxStruct, int flagRange)
@@ -459,8 +461,20 @@ static bool buildModel(const ModelCase& c, Ctx& ctx, Built& B, int onlyStruct = 
     }
     int before = B.model->getCovaNumber();
     ctx.at(std::string("addCov:") + s.key);
-    if (sc.how == 0)
+    if (sc.how == 0 || sc.how == 5)
       B.model->addCovFromParam(type, 0., 0., s.param, lens, sills, angles, c.flagRange != 0);
+    else if (sc.how == 3 || sc.how == 4)
+    {
+      // anisotropy first, rotation supplied afterwards as a Rotation object / a rotation matrix
+      B.model->addCovFromParam(type, 0., 0., s.param, lens, sills, VectorDouble(), c.flagRange != 0);
+      if (B.model->getCovaNumber() == before + 1 && !angles.empty())
+      {
+        Rotation rot((unsigned int)ndim);
+        rot.setAngles(angles);
+        if (sc.how == 3) B.model->getCova(before)->setAnisoRotation(rot);
+        else B.model->getCova(before)->setAnisoRotation(rot.getMatrixDirectVec());
+      }
+    }
     else if (sc.how == 2)
       B.model->addCovFromParam(type, lens[0], 0., s.param, VectorDouble(), sills, VectorDouble(), c.flagRange != 0);
     else
@@ -486,6 +500,31 @@ static bool buildModel(const ModelCase& c, Ctx& ctx, Built& B, int onlyStruct = 
     if (!B.names.empty()) B.names += "+";
     B.names += s.key;
     B.s.push_back(s);
+  }
+  bool viaNF = false;
+  for (auto& sc : c.st) viaNF = viaNF || sc.how == 5;
+  // (the neutral file stores ranges = scale x scadef(param): for extreme third parameters that factor over/underflows,
+  //  which is C08's concern; the path is only taken when every conversion factor is moderate)
+  for (auto& si : B.s)
+    if (si.hasRange != 0)
+    {
+      double scadef = CovFactory::getScaleFactor(ECov::fromValue(si.type), si.param);
+      if (!std::isfinite(scadef) || scadef < 1e-3 || scadef > 1e3) viaNF = false;
+    }
+  if (viaNF && !B.s.empty() && onlyStruct < 0)
+  {
+    // the model actually evaluated is the one read back from its neutral-file text
+    ctx.at("model:nf-roundtrip");
+    std::stringstream ss;
+    if (B.model->serialize(ss, false))
+    {
+      std::unique_ptr<Model> m2(new Model());
+      if (m2->deserialize(ss, false) && m2->getCovaNumber() == B.model->getCovaNumber())
+      {
+        B.model = std::move(m2);
+        ctx.label("built-via-neutral-file");
+      }
+    }
   }
   return !B.s.empty();
 }
